@@ -2204,9 +2204,24 @@ func strLiteralErrMsg(literal string) string {
 func expIntValue(yylex yyLexer, literal string, mantissa string, exponent string, val float64, exp float64) int64 {
 	m, ok := new(big.Int).SetString(mantissa, 10)
 	e, err := strconv.ParseInt(exponent, 10, 64)
-	if !ok || err != nil || e > 1000 || e < -1000 {
+	if !ok {
 		// fallback (never occurs as long as token regex is not changed)
 		return int64(val * math.Pow(10, exp))
+	}
+	if m.Sign() == 0 {
+		return 0
+	}
+	if err != nil || e > 1000 || e < -1000 {
+		// NOTE: the power of 10 is not calculated for huge exponents
+		if strings.HasPrefix(exponent, "-") {
+			if err != nil || int64(len(mantissa)) <= -e {
+				// less than 1
+				return 0
+			}
+		} else {
+			yylex.Error(intLiteralErrMsg(literal))
+			return 0
+		}
 	}
 
 	n := new(big.Int)
